@@ -1,4 +1,5 @@
 import Fs.Model.Lex
+import Fs.Model.Params
 /-!
 # Model of session variables (`fakesnow/variables.py`, `cursor.py:138,448`, `conn.py:52`)
 
@@ -162,6 +163,28 @@ def refAt (inCode : Bool) : Fs.Lex.St → Bool → List Char → Bool
 
 def refInLiteral (t : List Char) : Bool := refAt false .top false t
 def refInCode (t : List Char) : Bool := refAt true .top false t
+
+/-! ## statements with bound parameters (`cursor.py:138-139`) -/
+
+/-- the variable phase as the `inline` argument of `Fs.Params.phases` (`none` = it raised) -/
+def inlineOpt (env : Env) (cmd : List Char) : Option (List Char) :=
+  match Impl.inline env cmd with
+  | .ok t => some t
+  | .undefined _ => none
+
+/-- text executed for `execute(cmd, params)` under a client-side paramstyle: variables are inlined in the command,
+    then the (already quoted) values are substituted with `%` -/
+def execBound (env : Env) (cmd : List Char) (a : Fs.Params.Args) : Option (Fs.Params.Fmt × Bool) :=
+  Fs.Params.phases (inlineOpt env) .pyformat cmd a
+
+/-- does the command reference a variable whose value contains `%`?  (such a value is pasted into the text that
+    `%` then formats: region of the finding C15/percent-in-value-with-params) -/
+def refPct (env : Env) (toks : List Tok) : Bool :=
+  toks.any fun t => match t with
+    | .ref n => match env.get (upper n) with
+      | some v => v.contains '%'
+      | none => false
+    | .txt _ => false
 
 /-! ## histories: one dict per connection -/
 
